@@ -49,7 +49,8 @@ def hashTree : Term → HTree
   | .var n T => .tup [.str "VAR", .str n, tyHash T]
   | .const n T => .tup [.str "CONST", .str n, tyHash T]
   | .comb f a =>
-    let generic := HTree.tup [.str "COMB", hashTree f, hashTree a]
+    -- a thunk: the compiled code must not evaluate `hashTree a` twice per level
+    let generic : Unit → HTree := fun _ => .tup [.str "COMB", hashTree f, hashTree a]
     match f with
     | .comb (.const c _) p =>
       if c == "conj" then .tup [.str "CONJ", hashTree p, hashTree a]
@@ -57,9 +58,9 @@ def hashTree : Term → HTree
       else if c == "Let" then
         match a with
         | .abs _ S body => .tup [.str "LET", hashTree p, tyHash S, hashTree body]
-        | _ => generic
-      else generic
-    | _ => generic
+        | _ => generic ()
+      else generic ()
+    | _ => generic ()
   | .abs _ T b => .tup [.str "ABS", tyHash T, hashTree b]
   | .bound i => .tup [.str "BOUND", .nat i]
 
@@ -310,5 +311,171 @@ inductive Repr (h : Heap) : Addr → Term → Prop where
 
 /-- the heap invariant: the `_id` of a live object is its own address -/
 def IdInv (h : Heap) : Prop := ∀ a o, h a = some o → o.id = a
+
+
+/-! ## (d) the memoised hash `_hash_val` and `subst_type_inplace`
+
+`memo a` is the `_hash_val` field of the object at `a` (absent = `none`).  `hash(t)` stores on a
+node the hash of the tuple nest of the term the node represents at that moment, unless a value is
+already there (`memoise`; Python's `hash(t)` does this for a subset of the nodes reachable from `t`).
+`subst_type_inplace` (after fix C03-3: every object once) rewrites the type fields of all objects
+reachable from its target and deletes `_hash_val` on each of them (`inplace`; `R` = the objects
+visited, closed under children).  `Term(t)` copies the field with the rest of `__dict__`. -/
+
+abbrev Memo := Addr → Option HTree
+
+def Memo.empty : Memo := fun _ => none
+def Memo.set (m : Memo) (a : Addr) (v : Option HTree) : Memo := fun x => if x = a then v else m x
+
+/-- the type fields of one node instantiated -/
+def substNode (σ : Ty.TyInst) : Node → Node
+  | .svar n T => .svar n (T.subst σ)
+  | .var n T => .var n (T.subst σ)
+  | .const n T => .const n (T.subst σ)
+  | .abs x T b => .abs x (T.subst σ) b
+  | n => n
+
+/-- objects reachable from `a` through `fun` / `arg` / `body` -/
+inductive Reach (h : Heap) : Addr → Addr → Prop where
+  | refl (a : Addr) : Reach h a a
+  | step {a c x : Addr} {o : Obj} : h a = some o → c ∈ o.node.children → Reach h c x → Reach h a x
+
+/-- depth-first collection of the objects reachable from `a` (fuel bounds the recursion) -/
+def reachList (h : Heap) : Nat → Addr → List Addr → List Addr
+  | 0, _, acc => acc
+  | fuel + 1, a, acc =>
+    if acc.contains a then acc
+    else match h a with
+      | none => acc
+      | some o => o.node.children.foldl (fun acc c => reachList h fuel c acc) (a :: acc)
+
+/-- `R` contains, with every live object, its children -/
+def ChildClosed (h : Heap) (R : List Addr) : Prop :=
+  ∀ x ∈ R, ∀ o, h x = some o → ∀ c ∈ o.node.children, c ∈ R
+
+/-- executable check of `ChildClosed` -/
+def childClosed (h : Heap) (R : List Addr) : Bool :=
+  R.all fun x => match h x with
+    | none => true
+    | some o => o.node.children.all (fun c => R.contains c)
+
+/-- the heap after `subst_type_inplace`: every object of `R` rewritten once -/
+def inplaceHeap (σ : Ty.TyInst) (R : List Addr) (h : Heap) : Heap :=
+  fun x => if R.contains x then (h x).map (fun o => ⟨substNode σ o.node, o.id⟩) else h x
+
+/-- `dropAll = true`: the code (`del self._hash_val` on every visited object).  `false`: the
+variant that drops the memo only where a type annotation is rewritten (atoms and abstractions). -/
+def inplaceMemo (dropAll : Bool) (R : List Addr) (h : Heap) (m : Memo) : Memo :=
+  fun x =>
+    if R.contains x then
+      if dropAll then none
+      else match h x with
+        | some ⟨.comb _ _, _⟩ | some ⟨.bound _, _⟩ => m x
+        | _ => none
+    else m x
+
+/-- `hash` on the object at `a` when it represents `t`: keeps a value that is there -/
+def memoise (m : Memo) (a : Addr) (t : Term) : Memo :=
+  match m a with
+  | some _ => m
+  | none => m.set a (some (hashTree t))
+
+/-- what `hash(obj)` returns -/
+def hashObs (h : Heap) (m : Memo) (fuel : Nat) (a : Addr) : Option HTree :=
+  match m a with
+  | some v => some v
+  | none => (readTerm h fuel a).map hashTree
+
+/-- no live object refers to `a` (CPython frees an object only then) -/
+def Unreferenced (h : Heap) (a : Addr) : Prop := ∀ b o, h b = some o → a ∉ o.node.children
+
+/-- the memo invariant: a stored hash is the hash of the nest of the represented term -/
+def MemoInv (h : Heap) (m : Memo) : Prop := ∀ a v, m a = some v → ∃ t, Repr h a t ∧ v = hashTree t
+
+/-- the hypothesis the known finding violates: no memoised object outside the objects rewritten
+by `subst_type_inplace` reaches one of them -/
+def NoAlias (h : Heap) (m : Memo) (R : List Addr) : Prop :=
+  ∀ b, b ∉ R → m b ≠ none → ∀ x, Reach h b x → x ∉ R
+
+/-- legal events of a history with memoised hashes -/
+inductive MStep : Heap × Memo → Heap × Memo → Prop where
+  | alloc {h h' m a n} : alloc h a n = some h' → MStep (h, m) (h', m)
+  | wrap {h h' m a src} : wrap true h a src = some h' → MStep (h, m) (h', m.set a (m src))
+  | copy {h m fuel src as r} : copyRec h fuel src as = some r → MStep (h, m) (r.1, m)
+  | free {h m a} : Unreferenced h a → MStep (h, m) (h.del a, m.set a none)
+  | hash {h m a t} : Repr h a t → MStep (h, m) (h, memoise m a t)
+  | inplace {h m σ R} : ChildClosed h R → NoAlias h m R →
+      MStep (h, m) (inplaceHeap σ R h, inplaceMemo true R h m)
+
+inductive MSteps : Heap × Memo → Heap × Memo → Prop where
+  | nil (s) : MSteps s s
+  | cons {s1 s2 s3} : MStep s1 s2 → MSteps s2 s3 → MSteps s1 s3
+
+
+/-! ## (e) the `_id`-keyed cache of `subst_bound`
+
+`Abs(x, T, body).subst_bound(t)` for a CLOSED argument `t` (`t.is_open()` false: `t` itself is put
+at the occurrences of the bound variable), run on the heap as written: `rec(s, n)` returns atoms
+unchanged, replaces `Bound n` by the object `t`, allocates `Bound(i-1)` for `i > n`, and for `Comb` /
+`Abs` nodes first consults `cache[(s._id, n)]`, then recurses, re-uses `s` when the children came
+back identical (`fun_s._id == s.fun._id and …`), else allocates a new node, and stores the result
+under `(s._id, n)`.  `keyDepth = false` is the variant whose key forgets the binder depth `n`. -/
+
+abbrev Cache := List ((Addr × Nat) × Addr)
+
+def sameId (h : Heap) (a b : Addr) : Bool :=
+  match h a, h b with
+  | some oa, some ob => oa.id == ob.id
+  | _, _ => false
+
+def allocNext (h : Heap) (c : Cache) (as : List Addr) (n : Node) : Option (Heap × Cache × List Addr × Addr) :=
+  match as with
+  | [] => none
+  | a :: rest => (alloc h a n).map (fun h' => (h', c, rest, a))
+
+def sbHeap (keyDepth : Bool) (ua : Addr) :
+    Nat → Heap → Cache → List Addr → Addr → Nat → Option (Heap × Cache × List Addr × Addr)
+  | 0, _, _, _, _, _ => none
+  | fuel + 1, h, c, as, s, n =>
+    match h s with
+    | none => none
+    | some o =>
+      match o.node with
+      | .svar _ _ => some (h, c, as, s)
+      | .var _ _ => some (h, c, as, s)
+      | .const _ _ => some (h, c, as, s)
+      | .bound i =>
+        if i = n then some (h, c, as, ua)
+        else if i > n then allocNext h c as (.bound (i - 1))
+        else some (h, c, as, s)
+      | .comb f x =>
+        let key := (o.id, if keyDepth then n else 0)
+        match c.lookup key with
+        | some r => some (h, c, as, r)
+        | none =>
+          match sbHeap keyDepth ua fuel h c as f n with
+          | none => none
+          | some (h1, c1, as1, f') =>
+            match sbHeap keyDepth ua fuel h1 c1 as1 x n with
+            | none => none
+            | some (h2, c2, as2, x') =>
+              if sameId h2 f' f && sameId h2 x' x then some (h2, (key, s) :: c2, as2, s)
+              else
+                match allocNext h2 c2 as2 (.comb f' x') with
+                | none => none
+                | some (h3, c3, as3, a) => some (h3, (key, a) :: c3, as3, a)
+      | .abs nm T b =>
+        let key := (o.id, if keyDepth then n else 0)
+        match c.lookup key with
+        | some r => some (h, c, as, r)
+        | none =>
+          match sbHeap keyDepth ua fuel h c as b (n + 1) with
+          | none => none
+          | some (h1, c1, as1, b') =>
+            if sameId h1 b' b then some (h1, (key, s) :: c1, as1, s)
+            else
+              match allocNext h1 c1 as1 (.abs nm T b') with
+              | none => none
+              | some (h2, c2, as2, a) => some (h2, (key, a) :: c2, as2, a)
 
 end Holpy.C03
